@@ -146,6 +146,15 @@ def check_name(toks, viol):
             viol.append(('C09|names|wire-roundtrip', f'name {toks}: from_bytes(to_bytes(n)) differs'))
         if Name.encoded_length(n) != len(wire):
             viol.append(('C09|names|encoded_length', f'name {toks}'))
+        # every leading part is a prefix, in every pairing of the encoded / list / text forms; a longer name is not
+        for k in range(len(toks) + 1):
+            pw = ts.tlv(7, b''.join(comps[:k]))
+            for lf, rf, lab in ((pw, wire, 'wire,wire'), (bytearray(pw), memoryview(wire), 'bytearray,memoryview'), (pw, list(comps), 'wire,list'),
+                                (list(comps[:k]), wire, 'list,wire')):
+                if Name.is_prefix(lf, rf) is not True:
+                    viol.append((f'C09|names|is_prefix:{lab}', f'name {toks}: its first {k} components are not reported as a prefix'))
+                if k < len(toks) and Name.is_prefix(rf, lf) is not False:
+                    viol.append((f'C09|names|is_prefix-reversed:{lab}', f'name {toks}: reported as a prefix of its own first {k} components'))
     except Exception as e:  # noqa
         viol.append((f'C09|names|raises:{type(e).__name__}', f'name {toks}: {e!r}'))
 
